@@ -73,6 +73,20 @@ pub fn mk_mem(cart_type: u8, rom_code: u8, ram_code: u8, patch: &[(usize, u8)]) 
   MemoryAreas::with_rom_file(&mut f, &h)
 }
 
+/// like `mk_mem`, with further header bytes set (offset into the 80 header bytes, value) and the checksum recomputed:
+/// Color / Super Game Boy flags, licensee and destination codes, version
+pub fn mk_mem_x(cart_type: u8, rom_code: u8, ram_code: u8, extra: &[(usize, u8)]) -> MemoryAreas {
+  let mut hb = header_bytes(cart_type, rom_code, ram_code);
+  for (o, v) in extra.iter() { hb[*o] = *v; }
+  let mut check: u8 = 0;
+  for i in 0x34..0x4d { check = check.wrapping_sub(hb[i]).wrapping_sub(1); }
+  hb[0x4d] = check;
+  let h = unsafe { std::mem::transmute::<[u8; 80], Header>(hb) };
+  let size = h.get_rom_size_bytes();
+  let mut f = rom_file_with("pat", size, &[]);
+  MemoryAreas::with_rom_file(&mut f, &h)
+}
+
 /// the real `Core::from_rom_file` on a pattern ROM of the declared size
 pub fn mk_core(cart_type: u8, rom_code: u8, ram_code: u8) -> crate::emulator::Core {
   let h = header(cart_type, rom_code, ram_code);
